@@ -162,7 +162,8 @@ package frame
 //@   ensures  [at-most-one] logLen() <= 1
 //@   ensures  [whole-frame] logLen() == 1 ==> specRawOK(fr) && logN(0) == specFrameLen(fr) &&
 //@              (forall j int :: 0 <= j && j < specFrameLen(fr) ==> logByte(0, j) == specFrameWire(fr, j))
-//@   modifies w.bw[:], ghost:log, *fr
+//@   ensures  [raw-message-kept] old(specFrameMessage(fr)) != nil && old(specIsRaw(specFrameMessage(fr))) ==> specFrameMessage(fr) == old(specFrameMessage(fr))
+//@   modifies w.bw[:], ghost:log, *specMessageField(fr) when old(specFrameMessage(fr)) != nil && !old(specIsRaw(specFrameMessage(fr)))
 
 // ---------------------------------------------------------------- frame reader
 
